@@ -146,11 +146,24 @@ def check_C17(ctx):
     if kf and any(of["oracle"] == "C17-deleted-def" and of["script"].startswith("D13") for of in ctx.kernel_run.oracle_fails):
         ctx.known.append("swap_face_indices leaves the stored definition of a deferred-deleted cell unrelabeled (D13; replay corpus/kernel/known-findings.scripts)")
 
+def also_prove_file(ctx, vfile, samples=2):
+    """a further property file of the same property: obligations and theorems add up"""
+    if not os.path.exists(os.path.join(fw.COQ, vfile)):
+        ctx.broken.append({"kind": "theorem", "name": vfile, "detail": "property file missing"}); return
+    save = (ctx.cov.get("obligations", 0), ctx.cov.get("discharged", 0), list(ctx.theorems), ctx.cov["checker_cmd"])
+    fw.coq_prove(ctx, vfile)
+    ctx.cov["obligations"] = ctx.cov.get("obligations", 0) + save[0]; ctx.cov["discharged"] = ctx.cov.get("discharged", 0) + save[1]
+    ctx.theorems = save[2] + ctx.theorems
+    ctx.cov["checker_cmd"] = save[3] + " ; same for " + vfile
+    if samples: ctx.cov["samples"] += [{"theorem": t} for t in fw.theorem_statements(vfile, samples)]
+
 def check_C02(ctx):
     kernel_property(ctx, "C02", "Props/Properties_C02.v", ["valid", "axis", "recycle", "setops"], {"DelV", "DelE", "DelF", "DelC", "GC", "EnDef"},
                     assumptions=["cache exactness (vbu_ok/ebu_ok/fbu_ok) and the size invariant are hypotheses of the deferred-mode theorems; the size invariant is proved for every "
                                  "reachable state, cache exactness is evaluated by the sound decision procedures of Kernel/InvB.v on every model state the run visits",
-                                 "the immediate and fast modes (renumbering) are covered by lock step + oracle, not by a theorem; the oracle identifies vertices by position tokens"])
+                                 "immediate index-shifting mode: Properties_C02.v; immediate FAST mode, the bijection form, mode independence (fast / shifting / deferred) "
+                                 "and the invariant along every immediate-mode history: Properties_C02_fast.v (Kernel3/Fast*.v); the oracle identifies vertices by position tokens"])
+    also_prove_file(ctx, "Props/Properties_C02_fast.v")
 
 def check_C12(ctx):
     kernel_property(ctx, "C12", "Props/Properties_C12.v", ["toggles", "axis", "valid", "recycle", "swaps"],
@@ -180,12 +193,7 @@ def check_C01(ctx):
         if hfs and hfs[0].startswith("HFS [6 2 0 2 4]"):
             ctx.known.append("add_cell on cells that are not closed surfaces leaves the halffaces of halfedge 0 as [6 2 0 2 4] (duplicate 2, halfface 8 lost); replay corpus/kernel/known-findings.scripts#nonmanifold-cells-reorder")
     # further property files of C01: the history invariant (Kernel2/Exact*.v) and the derived queries (iterator component)
-    def also_prove(vfile):
-        save = (ctx.cov.get("obligations", 0), ctx.cov.get("discharged", 0), list(ctx.theorems), ctx.cov["checker_cmd"])
-        fw.coq_prove(ctx, vfile)
-        ctx.cov["obligations"] = ctx.cov.get("obligations", 0) + save[0]; ctx.cov["discharged"] = ctx.cov.get("discharged", 0) + save[1]
-        ctx.theorems = save[2] + ctx.theorems
-        ctx.cov["checker_cmd"] = save[3] + " ; same for " + vfile
+    def also_prove(vfile): also_prove_file(ctx, vfile)
     if os.path.exists(os.path.join(fw.COQ, "Props/Properties_C01_history.v")):
         also_prove("Props/Properties_C01_history.v")
         ctx.cov["samples"] += [{"theorem": t} for t in fw.theorem_statements("Props/Properties_C01_history.v", 2)]
